@@ -51,6 +51,31 @@ static void handler(vh::Reader& r, vh::Out& o)
 		for(auto& v : vs)
 			put_vec(o, v);
 	}
+	else if(op == "history")
+	{
+		// several calls on ONE Matrix object (Eigensystem / Eigenvectors take it by non-const reference):
+		// Eigensystem, Eigenvectors, Eigenvalues, QR_Decomposition, Eigensystem again; then whether the object still equals its copy
+		Matrix M0(M);
+		auto es = Eigensystem(M);
+		o.fl(es.first);
+		o.i(es.second.size());
+		for(auto& v : es.second)
+			put_vec(o, v);
+		auto vs = Eigenvectors(M);
+		o.i(vs.size());
+		for(auto& v : vs)
+			put_vec(o, v);
+		o.fl(Eigenvalues(M));
+		std::pair<Matrix, Matrix> qr = QR_Decomposition(M);
+		put_mat(o, qr.first);
+		put_mat(o, qr.second);
+		auto es2 = Eigensystem(M);
+		o.fl(es2.first);
+		o.i(es2.second.size());
+		for(auto& v : es2.second)
+			put_vec(o, v);
+		o.i((M == M0) ? 1 : 0);
+	}
 	else if(op == "rayleigh")
 	{
 		double ev = r.num();
